@@ -1,6 +1,8 @@
 #!/bin/bash
 # usage: seed_eval.sh <patch.diff> <check> [<check> ...]   — applies the patch to /repo, runs the quick checks, reverts
 patch="$1"; shift
+# one mutator of /repo at a time (seed_regress.sh takes the same lock per seed)
+exec 9>/tmp/repo_mutation.lock; flock 9
 cd /repo || exit 2
 if ! git diff --quiet; then echo "/repo is dirty, refusing"; exit 2; fi
 git apply "$patch" || { echo "patch does not apply"; exit 2; }
